@@ -201,10 +201,13 @@ class LUDomain(opsdom.OpsDomain):
                 return "console"
         if k == "Construct":
             t = e.get("t", "").replace("const ", "")
-            if t.startswith("std::unordered_map<int, double>") and not args:
+            if (t.startswith("std::unordered_map<int, double>") or (e.get("ctor") or "").startswith("std::unordered_map<int, double>::unordered_map")) and not args:
                 return MapObj()
-            if t.startswith("std::vector<std::unordered_map<int, double>"):
-                n = it.rvalue(args[0], fr)
+            ctor_ = e.get("ctor") or ""
+            if t.startswith("std::vector<std::unordered_map<int, double>") or ctor_.startswith("std::vector<std::unordered_map<int, double>"):
+                if e.get("copy") or e.get("move"):
+                    return it.rvalue(args[0], fr)
+                n = it.rvalue(args[0], fr) if args else 0
                 return MapVec(n)
             if t.startswith("std::set<int") and not args:
                 return SetObj()
@@ -275,6 +278,8 @@ class LUDomain(opsdom.OpsDomain):
                     if key not in th.d:
                         th.d[key] = Cell(v, "map[%s]" % key)
                     return None
+            if isinstance(th, (MapVec, SetVec)) and m == "size":
+                return len(th.items)
             if isinstance(th, SetObj):
                 if m in ("insert", "emplace") and len(args) == 1:
                     th.s.add(it.rvalue(args[0], fr))
